@@ -5,20 +5,20 @@ from rules import locking as L
 
 
 def run(ctx):
-    D.ord3_ack_after_durable(ctx)
-    D.ord4_atomic_store(ctx)
-    D.flw3_storage_errors_not_dropped(ctx)
-    D.ord5_flush_order(ctx)
-    D.flw4_cursor_values(ctx)
-    D.flw5_replay_delete_split(ctx)
-    D.ord10_cursor_before_snapshot(ctx)
-    L.lck1_flush_critical_section(ctx, with_reset=False)
-    L.lck2_ingest_critical_section(ctx)
-    D.lit3_wal_file_names(ctx)
-    U.flw17_segment_id_units(ctx)
-    D.flw18_segment_id_consistency(ctx)
-    D.ord15_store_not_conditional_on_presence(ctx)
-    D.erv4_no_error_discarded(ctx)
+    ctx.run(D.ord3_ack_after_durable)
+    ctx.run(D.ord4_atomic_store)
+    ctx.run(D.flw3_storage_errors_not_dropped)
+    ctx.run(D.ord5_flush_order)
+    ctx.run(D.flw4_cursor_values)
+    ctx.run(D.flw5_replay_delete_split)
+    ctx.run(D.ord10_cursor_before_snapshot)
+    ctx.run(L.lck1_flush_critical_section, with_reset=False)
+    ctx.run(L.lck2_ingest_critical_section)
+    ctx.run(D.lit3_wal_file_names)
+    ctx.run(U.flw17_segment_id_units)
+    ctx.run(D.flw18_segment_id_consistency)
+    ctx.run(D.ord15_store_not_conditional_on_presence)
+    ctx.run(D.erv4_no_error_discarded)
     return ctx.finish(
         'Static analysis of compiler MIR: structural clauses of the write-ahead protocol that are '
         'necessary for "acknowledged data survives restart" are decided on every CFG path '
